@@ -38,3 +38,6 @@ def standins(tier, seed):
                                              'introduces float constants), blade exponentials of every sign of square (float, sympy, ndarray), Study-number square roots, powers +-n, norms; '
                                              'inverse-based identities (outertan, x**-2) only for inverse arguments with <= 4 blades in 5-D and <= 2 blades in 6-D',
              'job': {'kind': 'series', 'module': 'standins.jobs6', 'configs': [dict(p=p, q=q, r=r, random=cnt(p, q, r))], 'seed': seed + i}} for i, (p, q, r) in enumerate(sigs)]
+
+
+replay = K.replay_any
